@@ -1,5 +1,6 @@
 //! desmon — runtime monitors for the simulator (`des`), one sub-command per property / level.
 
+mod c03net;
 mod c04;
 mod c05;
 mod c06;
@@ -38,6 +39,7 @@ fn main() {
         let sub = case.get("sub").and_then(Value::as_str).unwrap_or("").to_string();
         let rc = match sub.as_str() {
             "c02" | "c03rt" | "c10" | "c11" => rtprops::replay(case),
+            "c03net" => c03net::replay(case),
             "c04" => c04::replay(case),
             "c05" => c05::replay(case),
             "c06" => c06::replay(case),
@@ -64,6 +66,7 @@ fn main() {
         "c03rt" => rtprops::cmd_c03rt(&args),
         "c10" => rtprops::cmd_c10(&args),
         "c11" => rtprops::cmd_c11(&args),
+        "c03net" => c03net::cmd(&args),
         "c04" => c04::cmd(&args),
         "c05" => c05::cmd(&args),
         "c06" => c06::cmd(&args),
